@@ -245,7 +245,17 @@ class PUBO(BO, PUBOMatrix):
 
         # do the reductions
         reductions = {}
+        if __import__("os").environ.get("JTIOSUE_QUBOVERT_VERIF") == "1":
+            # verification hook (add-only): record a reduction certificate
+            _verif_cert, _verif_lams = [], []
+
+            def func_lam(v, _verif_f=func_lam):
+                _verif_lams.append(_verif_f(v))
+                return _verif_lams[-1]
         for key, v in mapped_self.items():
+            if __import__("os").environ.get("JTIOSUE_QUBOVERT_VERIF") == "1":
+                _verif_term = dict(key=key, v=v, lam=None, steps=[])
+                _verif_cert.append(_verif_term)
             # find a reduction if len(key) > deg
             while len(key) > deg:
                 # find a variable pair in k that has already been reduced.
@@ -291,6 +301,12 @@ class PUBO(BO, PUBOMatrix):
                 D += qv.PCBO().add_constraint_eq_AND(
                     z, x, y, lam=func_lam(v)
                 )
+                if __import__("os").environ.get(
+                        "JTIOSUE_QUBOVERT_VERIF") == "1":
+                    _verif_term["steps"].append(
+                        (x, y, z, not previously_used, _verif_lams[-1]))
+                    if _verif_term["lam"] is None:
+                        _verif_term["lam"] = _verif_lams[-1]
 
                 # key is sorted, but it is not necessarily the case that
                 # z > all of the other elements in key. So let's efficiently
@@ -309,6 +325,10 @@ class PUBO(BO, PUBOMatrix):
                     key += (z,)
 
             D[key] += v
+            if __import__("os").environ.get("JTIOSUE_QUBOVERT_VERIF") == "1":
+                _verif_term["final"] = key
+        if __import__("os").environ.get("JTIOSUE_QUBOVERT_VERIF") == "1":
+            D._verif_reduction_certificate = _verif_cert
 
     def to_pubo(self, deg=None, lam=None, pairs=None):
         """to_pubo.
